@@ -27,6 +27,7 @@ import (
 	"time"
 
 	"github.com/dgraph-io/badger/v4"
+	"github.com/mimiro-io/datahub/internal/verifhook"
 )
 
 type fullSyncLease struct {
@@ -223,11 +224,14 @@ func (ds *Dataset) StoreEntities(entities []*Entity) (Error error) {
 		return nil
 	}
 
+	verifhook.Point("lock.wait", ds.ID)
 	ds.WriteLock.Lock()
+	verifhook.Point("lock.acquired", ds.ID)
 	writeLockStart := time.Now()
 	// release lock at end regardless
 	defer func() {
 		_ = ds.store.statsdClient.Timing("ds.writeLock.time", time.Since(writeLockStart), tags, 1)
+		verifhook.Point("lock.release", ds.ID)
 		ds.WriteLock.Unlock()
 	}()
 
@@ -243,20 +247,24 @@ func (ds *Dataset) StoreEntities(entities []*Entity) (Error error) {
 		return err
 	}
 
+	verifhook.Point("batch.beforeIdCommit", ds.ID)
 	err = ds.store.commitIDTxn()
 	if err != nil {
 		return err
 	}
+	verifhook.Point("batch.afterIdCommit", ds.ID)
 
 	err = txn.Commit()
 	if err != nil {
 		return err
 	}
+	verifhook.Point("batch.afterCommit", ds.ID)
 
 	err = ds.updateDataset(newitems, entities)
 	if err != nil {
 		return err
 	}
+	verifhook.Point("batch.afterUpdateDataset", ds.ID)
 
 	return nil
 }
@@ -815,6 +823,7 @@ func (ds *Dataset) updateDataset(newItemCount int64, entities []*Entity) error {
 				count = newItemCount
 			}
 			dsEntity.Properties[dsInfo.ItemsKey] = count
+			verifhook.Point("updateDataset.afterRead", ds.ID)
 			tds, ok := ds.store.datasets.Load("core.Dataset")
 			if ok {
 				_ = tds.(*Dataset).StoreEntities([]*Entity{dsEntity})
